@@ -22,6 +22,14 @@ Proof.
   - specialize (IH rune' st' (S c)). cbn [length]. lia.
 Qed.
 
+Lemma skip_trail_w_le l : (skip_trail_w l <= length l)%nat.
+Proof. unfold skip_trail_w. pose proof (skip_trail_le (firstn 3 l)) as H. rewrite firstn_length in H. lia. Qed.
+Lemma decode_rune_w_le l : (fst (decode_rune_w l) <= length l)%nat.
+Proof.
+  unfold decode_rune_w, decode_rune, rune_window. pose proof (decode_loop_le (firstn 4 l) 0 st_accept O) as H.
+  rewrite firstn_length in H. lia.
+Qed.
+
 Lemma eol_le l : utf8_match_eol l <= lenN l.
 Proof.
   unfold utf8_match_eol, lenN. destruct l as [|c1 t]; [cbn [length]; lia|].
@@ -51,19 +59,19 @@ Proof.
   intros H Hi. pose proof (rest_len i Hi) as HL.
   destruct ins; try discriminate H; unfold tmatch in H.
   - (* any *) destruct (rest inp i) as [|c l]; [discriminate|]. injection H as <-.
-    pose proof (skip_trail_le l). unfold lenN in *. cbn [length] in HL. lia.
+    pose proof (skip_trail_w_le l). unfold lenN in *. cbn [length] in HL. lia.
   - (* eol *) destruct (rest inp i) as [|c l]; [discriminate|].
     pose proof (eol_le (c :: l)) as He. remember (utf8_match_eol (c :: l)) as n eqn:En. clear En.
     destruct (n =? 0); [discriminate|]. injection H as <-. lia.
   - (* octet *) destruct (rest inp i) as [|c l]; [discriminate|]. destruct (c =? b); [|discriminate]. injection H as <-.
     unfold lenN in *. cbn [length] in HL. lia.
   - (* set *) destruct (rest inp i) as [|c l]; [discriminate|].
-    pose proof (decode_loop_le (c :: l) 0 st_accept O) as HD. fold (decode_rune (c :: l)) in HD.
-    destruct (decode_rune (c :: l)) as [n rune]. destruct (contains s rune); [|discriminate]. injection H as <-.
+    pose proof (decode_rune_w_le (c :: l)) as HD.
+    destruct (decode_rune_w (c :: l)) as [n rune]. destruct (contains s rune); [|discriminate]. injection H as <-.
     cbn [fst] in HD. unfold lenN in *. lia.
   - (* class *) destruct (rest inp i) as [|c l]; [discriminate|].
-    pose proof (decode_loop_le (c :: l) 0 st_accept O) as HD. fold (decode_rune (c :: l)) in HD.
-    destruct (decode_rune (c :: l)) as [n rune].
+    pose proof (decode_rune_w_le (c :: l)) as HD.
+    destruct (decode_rune_w (c :: l)) as [n rune].
     destruct (class_test ucd k penum mask rune) as [[|]|]; try discriminate. injection H as <-.
     cbn [fst] in HD. unfold lenN in *. lia.
   - (* match *) destruct (lenN s =? 0); [injection H as <-; lia|].
